@@ -115,11 +115,11 @@ def parseViews : Nat → List String → Option (List View × List String)
       (stripOpen arg).bind fun f => f.toNat?.bind fun f =>
       (body ts).bind fun (vs, r) => cont (View.resSuspend f (View.seq vs)) r
     else if k == 'g' then
-      -- g<kind><k>[ … ]: kind o = OnceResource, r = Resource, d = AsyncDerived (one model)
+      -- g<kind><k>[ … ]: kind o = OnceResource (loader spawned), r = Resource, d = AsyncDerived (polled once where created)
       let kind := arg.front
       if kind == 'o' || kind == 'r' || kind == 'd' then
         (stripOpen (arg.drop 1).toString).bind fun f => f.toNat?.bind fun f =>
-        (body ts).bind fun (vs, r) => cont (View.resRead f (View.seq vs)) r
+        (body ts).bind fun (vs, r) => cont (View.resRead (kind == 'o') f (View.seq vs)) r
       else none
     else if t == "L" || t == "M" then cont View.localRead ts
     else if k == 'W' then arg.toNat?.bind fun f => cont (View.localAwait f) ts
@@ -177,7 +177,7 @@ def step (st : St) (line : String) : St × String :=
       if mode == "io" || mode == "ooo" then
         let ooo := mode == "ooo"
         let v := View.seq vs
-        let cls := "unclassified"
+        let cls := if noLate .top v then "unclassified" else "sync-read-late"
         ({ run := some (startStream ooo done0 (compile ooo .top v)), ooo := ooo, ref := viewDoc v, cls := cls }, "ok")
       else (st, "bad-op")
     | _, _ => (st, "bad-op")
